@@ -17,7 +17,7 @@ PROPS = ['PGA.Props.C13']
 GEN = ['YamlUnits', 'Chars']
 OBLIGATIONS = ['PGA.Merge.' + t for t in [
     'C13_update_atomic', 'C13_update_atomic_old_fails', 'C13_update_parts', 'C13_update_idempotent',
-    'C13_merge_list_union', 'C13_merge_order_free', 'C13_conflict_rejected', 'C13_conflict_cp_rejected',
+    'C13_merge_list_union', 'C13_merge_order_free', 'C13_conflict_rejected', 'C13_conflict_S_rejected', 'C13_conflict_cp_rejected',
     'C13_overwrite_later_wins', 'C13_range_union_hull', 'C13_libUpdate_union', 'C13_load_tree_union',
     'C13_load_order_nesting_free', 'C13_duplicate_spelling_rejected']]
 RULE = ('cases: (a) sequences (length <= 12) of update(target, source, overwrite) over a universe of 3-6 correlations that '
